@@ -78,11 +78,10 @@ def install():
     mon.use_tool_id(TOOL, "vf-steps")
     mon.register_callback(TOOL, mon.events.JUMP, _on_jump)
     mon.register_callback(TOOL, mon.events.PY_RETURN, _on_exit)
-    mon.register_callback(TOOL, mon.events.PY_UNWIND, _on_exit)
     n = 0
     for m in (beacon, utils, xordecode, pe, guardrails, artifact, c2):
         for co in _code_objects(m):
-            mon.set_local_events(TOOL, co, mon.events.JUMP | mon.events.PY_RETURN | mon.events.PY_UNWIND)
+            mon.set_local_events(TOOL, co, mon.events.JUMP | mon.events.PY_RETURN)
             n += 1
     _state["installed"] = True
     _state["ncode"] = n
